@@ -102,6 +102,9 @@ func genC06(r *Rng, tier string) []*Case {
 			t0 := canonVec(Vec{Dim: n, Ents: sortedSpan(r, n, 60, 0, r.Pos)})
 			in.T0 = &t0
 		}
+		if k%3 == 2 {
+			in.Reweigh = 1 + k%2
+		}
 		cs = append(cs, mk("ComputeRuns", in))
 	}
 	return cs
